@@ -80,6 +80,7 @@ def rule_n1_n2(chk: Check) -> None:
         # the path is relayed as sent: dot segments, doubled slashes and a trailing slash are
         # part of what the caller asked for (handlers and access rules resolve them themselves)
         ("dot segments and doubled slashes", "example.org", None, "/a/../b//c/./d/", "x=1", "example.org", "/a/../b//c/./d/"),
+        ("sub-delimiters and gen-delims in the path", "example.org", None, "/report;v=2/a:b@c,d+e/index.gmi", "k=v;w&z=1+1", "example.org", "/report;v=2/a:b@c,d+e/index.gmi"),
         ("dot segments behind an escaped slash", "example.org", 1966, "/pub%2Fx/../secret.gmi", "", "example.org:1966", "/pub%2Fx/../secret.gmi"),
     ]
     # urlparse().hostname is lower-cased and unbracketed, .netloc is as written
@@ -183,6 +184,41 @@ def rule_n3(chk: Check) -> None:
         chk.finding("N3", nm.key, "normalize-url", "normalize_url does not return parse_url(url).normalized", nm.loc())
 
 
+def rule_n4(chk: Check) -> None:
+    """Uploads: the Titan request line is the caller's URL with only the scheme
+    prefix exchanged.  `str.replace("gemini://", "titan://")` rewrites every
+    occurrence, also one inside the path or query."""
+    chk.rule("N4", "upload(): the URL put on the wire derives from the caller's URL by exchanging the scheme prefix only (slice / concatenation), never by an unbounded str.replace")
+    up = chk.proj.func("client.session:GeminiClient.upload")
+    g = build_cfg(chk.proj, up)
+    d = Defs(g)
+    ctor = None
+    for n in g.nodes:
+        if n.ast is None or n.kind != "stmt":
+            continue
+        for c in calls(n.ast):
+            if (dotted(c.func) or "").split(".")[-1] == "TitanClientProtocol" and c.args:
+                ctor = (n, c)
+    if not chk.require("N4", up.key, "Titan protocol construction", 1 if ctor else 0, 1, "upload() no longer builds the Titan client protocol with the request URL"):
+        return
+    node, call = ctor
+    seen, todo, bad = set(), [(node, call.args[0])], []
+    while todo:
+        at, e = todo.pop()
+        for x in walk(e):
+            if isinstance(x, ast.Call) and method_call(x) and method_call(x)[1] == "replace" and len(x.args) == 2 and isinstance(x.args[0], ast.Constant) and "://" in str(x.args[0].value):
+                bad.append((at, x))
+            if isinstance(x, ast.Name) and (at.id, x.id) not in seen:
+                seen.add((at.id, x.id))
+                for dn, val, sel in d.at(at, x.id):
+                    if val is not None:
+                        todo.append((dn, val.value if isinstance(val, ast.AugAssign) else val))
+    ok = not bad
+    for at, x in bad:
+        chk.finding("N4", up.key, f"scheme-replace:{norm(x)[:50]}", f"the upload request line is built with `{norm(x)}`, which rewrites every occurrence of the scheme text: a URL whose path or query embeds another gemini:// URL is sent with that text altered, so the server parses a different path / query than the caller asked for", at.where())
+    chk.ob("N4", f"{up.key}: scheme exchanged by prefix only", ok, evals=len(seen) + 1)
+
+
 def wire_fidelity(chk: Check, rule: str, what: str) -> None:
     """N1-N3 reported under another property's rule id: the URL a component is
     handed (middleware, upstream, TOFU key) has the components the caller asked
@@ -202,5 +238,6 @@ def wire_fidelity(chk: Check, rule: str, what: str) -> None:
 def run(chk: Check) -> None:
     rule_n1_n2(chk)
     rule_n3(chk)
+    rule_n4(chk)
     chk.trusted = ["CPython ast parser", "engine abstract evaluator", "urllib.parse: .hostname is lower-cased and unbracketed, urlunparse joins the six components"]
     chk.assumptions = ["idempotence / meaning preservation over all URLs is not decided; only the listed component samples are evaluated abstractly"]
